@@ -12,10 +12,11 @@ CONSTANTS
   TxNoLock = FALSE
   WalGuard = TRUE
   WalOwnerTest = TRUE
+  FlushAll = FALSE
   Exclude = {"DmsW", "RecovW", "RecovU"}
   Gated = FALSE
   EmitEdges = FALSE
 VIEW view
-INVARIANTS TypeOK LockConsistent WriteSetHeld Exclusion NoBegin SnapshotExcluded EmitInv
+INVARIANTS TypeOK NothingLost LockConsistent WriteSetHeld Exclusion NoBegin SnapshotExcluded EmitInv
 PROPERTIES RefusedWhileWriting EnterOnlyWhenFree WritesInsideSection CkptNeverGrantedUnderForeignWrite WalWriteNeedsWriteLock SingleLockPosix WalWriteByHolder
 CHECK_DEADLOCK FALSE
